@@ -219,6 +219,47 @@ def py_sbounds(sb):
 
 
 def build_tree(T):
+  """The device_kit object of the tree description T.  For a deterministic quarter of the trees with aggregate bounds somewhere below
+  the root, the inner sets are first built with OTHER aggregate bounds (none, or every slot pinned to its low), the whole tree is used
+  once (constraints read and evaluated, cost), and only then the target `sbounds` are assigned through the setter: everything must be as
+  for a freshly built twin (an ancestor must not keep what it derived from the earlier bounds)."""
+  h = int(__import__('core').case_hash(tree_to_json(T)), 16)
+  inner = [t for t in _sets(T) if t is not T and t.get('sbounds')]
+  if T['kind'] in ('set', 'subbal') and inner and h % 4 == 0:
+    import copy
+    T0 = copy.deepcopy(T)
+    for t in _sets(T0):
+      if t is not T0 and t.get('sbounds'):
+        t['sbounds'] = None if (h // 4) % 2 else [(lo, lo) for lo, hi in t['sbounds']]
+    d = _build(T0)
+    try:
+      z = np.zeros(rows(T) * length(T))
+      [c['fun'](z) for c in d.constraints]
+      d.cost(z.reshape(d.shape), 0)
+    except Exception:
+      pass
+
+    def assign(dev, t):
+      if t['kind'] in ('set', 'subbal'):
+        if t is not T and t.get('sbounds'):
+          dev.sbounds = py_sbounds(t['sbounds'])
+        for sub, k in zip(dev.devices, t['kids']):
+          assign(sub, k)
+    assign(d, T)
+    return d
+  return _build(T)
+
+
+def _sets(T):
+  out = []
+  if T['kind'] in ('set', 'subbal'):
+    out.append(T)
+    for k in T['kids']:
+      out += _sets(k)
+  return out
+
+
+def _build(T):
   import device_kit as dk
   k = T['kind']
   if k == 'leaf':
@@ -242,7 +283,7 @@ def build_tree(T):
           except Exception:
             pass
     return dk.TwoRatioMFDeviceSet(inner, flows, ratios, ct)
-  kids = [build_tree(c) for c in T['kids']]
+  kids = [_build(c) for c in T['kids']]
   if k == 'set':
     return dk.DeviceSet(T['id'], kids, py_sbounds(T['sbounds']))
   if k == 'subbal':
